@@ -59,9 +59,9 @@ CHECKS = {
    "Trusted: the monitor's own bookkeeping and the independent manifest parser. Truthful descriptors in generated manifests; a subject is not required to remain; protected set = what was present when the tag was first observed.",
    "runtime monitor: per-step invariant re-check over observed tags/content + recording backend + race detector", "3/C14"),
  "C19": ("exploration",
-   "Generated Docker config documents (6e3 quick / 5e4 thorough; host keys, URL keys with paths, collisions, auth/identitytoken/registrytoken forms, credsStore/credHelpers, helper behaviours) are each written to disk and loaded 16/64 times afresh (map iteration re-randomised) with lookups in several orders; every observation must equal an independent model of the documented precedence and every other observation of the same document. A second phase drives real docker-credential-* scripts through ExecHelperWithEnv.",
+   "Generated Docker config documents (6e3 quick / 5e4 thorough; host keys, URL keys with paths, collisions, auth/identitytoken/registrytoken forms, credsStore/credHelpers, helper behaviours) are each written to disk and loaded 16/64 times afresh (map iteration re-randomised) with lookups in several orders; every observation must equal an independent model of the documented precedence and every other observation of the same document. A second phase drives real docker-credential-* scripts through ExecHelperWithEnv, sequentially and then with six goroutines looking hosts up on one ConfigFile at once under the Go race detector (answers must equal the sequential ones).",
    "Trusted: the independent precedence model in cmd/c19/model.go. Where the property is silent (identity token with username, auth plus username/password) either documented outcome is accepted; passwords do not start or end with NUL.",
-   "runtime monitor: independent precedence model + repeated fresh loads to vary map iteration order", "3/C19"),
+   "runtime monitor: independent precedence model + repeated fresh loads to vary map iteration order + Go race detector over concurrent lookups", "3/C19"),
  "C12": ("exploration",
    "Every Interface method x every allow/deny assignment to the (repository, access kind) pairs it needs (both sides of a mount) x {AccessChecker, Select} is executed over populated backends (the finite core, enumerated), then thousands of random histories under random pure policies; a recording backend shows whether the wrapped registry was invoked, and a twin registry called directly gives the expected behaviour of allowed calls and of filtered listings.",
    "Trusted: the documented method->access-kind mapping, the twin ocimem registry as reference for allowed calls. Read and list verdicts of generated policies are kept equal because the listing filter's access kind is unspecified.",
